@@ -660,15 +660,15 @@ class ScrollBar(WidgetDecoration[WrappedWidget]):
         if hasattr(ow, "mouse_event") and 0 <= col < ow_size[0]:
             handled = ow.mouse_event(ow_size, event, button, col, row, focus)
 
-        if not handled and hasattr(ow, "set_scrollpos"):
+        if not handled and hasattr(ow, "set_scrollpos") and button in {4, 5}:
+            pos = ow.get_scrollpos(ow_size)
+            if pos < 0:
+                # a position counted from the end that has not been rendered (normalised) yet
+                pos = max(0, ow.rows_max(ow_size, focus) - ow_size[1] + pos + 1)
             if button == 4:  # scroll wheel up
-                pos = ow.get_scrollpos(ow_size)
-                newpos = max(pos - 1, 0)
-                ow.set_scrollpos(newpos)
-                return True
-            if button == 5:  # scroll wheel down
-                pos = ow.get_scrollpos(ow_size)
+                ow.set_scrollpos(max(pos - 1, 0))
+            else:  # scroll wheel down
                 ow.set_scrollpos(pos + 1)
-                return True
+            return True
 
         return handled
